@@ -14,6 +14,12 @@ from hypothesis import strategies as st
 STEPS = [600, 900, 1200, 1800, 2400, 3600, 7200, 86400, 90, 115, 229, 300]
 ZONES = ['UTC', 'UTC', 'Etc/GMT-7', 'Etc/GMT+5', 'Africa/Lagos',
          'Asia/Kolkata', 'Etc/GMT-12']
+# data zones whose clocks change, with the UTC epoch of a spring transition
+# (an hour of local time is skipped: every instant still has its own text;
+# the autumn transition, where two instants share one text that the input
+# format cannot tell apart, is months away from any generated record)
+DST_ZONES = [('Europe/Berlin', 1396141200), ('America/New_York', 1394348400),
+             ('Australia/Lord_Howe', 1412436600)]
 T0_BASE = 1388534400  # 2014-01-01 00:00:00 UTC, a multiple of 7200
 
 
